@@ -124,6 +124,11 @@ def _from_vectors(V):
         undo()
     facts = st.ghost.get("rot_facts", [])
     general = not facts
+    if out.returned and facts and len(facts) != 2 and not any(e[0] == "np-division-by-zero" for e in st.trace):
+        # the special branch no longer has the verified shape (two rotations through a helper direction, each used through this function's
+        # own contract): nothing can be concluded from the contracts, the clauses of the accepted tree are reported as not discharged
+        for lab in ("post[antiparallel]/orthogonal", "post[antiparallel]/is-the-product-of-the-two-contract-rotations", "post[antiparallel]/helper-chain:v1->helper->v2"):
+            V.ensure(lab, z3.BoolVal(False), structure=f"{len(facts)} recursive use(s) of the contract instead of 2")
     if out.returned and len(facts) == 2 and not any(e[0] == "np-division-by-zero" for e in st.trace):
         # composition of two rotations v1 -> helper -> v2 (helper non-zero: precondition of the contract, see DESIGN)
         R = out.value.data
